@@ -27,6 +27,18 @@ class FuncInfo:
         return f"{self.module.rel}:{self.node.lineno}"
 
 
+def _canonicalise(tree):
+    """behaviour-preserving normal form applied to every parsed module before any rule sees it, so that rules are
+    invariant under the corresponding refactorings:
+      if not C: A else: B   ->   if C: B else: A        (plain if/else only; elif chains keep their shape)
+    Line numbers of the moved statements are kept."""
+    for n in ast.walk(tree):
+        if isinstance(n, ast.If) and n.orelse and not (len(n.orelse) == 1 and isinstance(n.orelse[0], ast.If)):
+            t = n.test
+            if isinstance(t, ast.UnaryOp) and isinstance(t.op, ast.Not):
+                n.test, n.body, n.orelse = t.operand, n.orelse, n.body
+
+
 class ModuleInfo:
     def __init__(self, rel: str, source: str):
         self.rel = rel
@@ -35,6 +47,8 @@ class ModuleInfo:
             self.tree = ast.parse(source, filename=rel)
         except SyntaxError as e:  # the tree must at least parse
             raise AnalysisError(f"syntax error in {rel}: {e}") from e
+        if os.environ.get("VERIF_NO_CANON") != "1":
+            _canonicalise(self.tree)
         self._parents: ParentMap | None = None
         for _n in ast.walk(self.tree):
             _n._sa_mod = self  # lets pattern helpers find the module (and so the enclosing function) of any node
